@@ -943,6 +943,12 @@ def _new_rxn(w, m, h):
     return r
 
 
+def _add_inverted(w, m, h):
+    r = w.new("Reaction", "BAD", lower_bound=5.0, upper_bound=1.0)
+    r.add_metabolites({h["mets"]["a_c"]: -1.0})
+    m.add_reactions([r])
+
+
 def _add_cons_vars(w, m, h):
     v = OVar("extra_v", lb=0, ub=3)
     c = OCons(v * 2.0, lb=0, ub=9, name="extra_c")
@@ -1004,6 +1010,7 @@ REFUSED: Dict[str, Tuple[str, Callable]] = {
     "metabolite renamed to a name the solver refuses": ("b_c.id = 'b c'", lambda w, m, h: _set(h["mets"]["b_c"], "id", "b c")),
     "reaction renamed to a name the solver refuses": ("R1.id = 'R 1'", lambda w, m, h: _set(h["R1"], "id", "R 1")),
     "reaction renamed to a name whose reverse variable the solver refuses": ("R1.id = 'X' * 250  # the name of the reverse variable is longer than the solver accepts", lambda w, m, h: _set(h["R1"], "id", "X" * 250)),
+    "reaction with bounds the wrong way round added": ("model.add_reactions([Reaction('BAD', lower_bound=5, upper_bound=1)])  # the constructor accepts the bounds, the solver does not", lambda w, m, h: _add_inverted(w, m, h)),
     "metabolite renamed to a taken name": ("b_c.id = 'a_c'", lambda w, m, h: _set(h["mets"]["b_c"], "id", "a_c")),
     "foreign objective reaction": ("model.objective = {a reaction of no model: 1}", lambda w, m, h: _set(m, "objective", {w.new("Reaction", "FOREIGN"): 1.0})),
 }
